@@ -58,6 +58,9 @@ STATE_OWNERS = {
     ("mingus.midi.fluidsynth", "initialized"): {"init"},
 }
 
+# registries whose purpose is to keep what they are given (under a text key)
+RETAINED_BY_DESIGN = {("mingus.extra.tunings", "_known", "add_tuning")}
+
 
 def in_scope(name):
     return name.startswith(SCOPE_PREFIXES) or name in SCOPE_EXTRA
@@ -487,6 +490,55 @@ def rule_module_state(ctx, repo, mods, R, report=True, owners=STATE_OWNERS):
                               else "only %s may write it" % sorted(allowed)))
             elif not ok:
                 ctx.held(R, "fixture:module-state %s" % g, m.relpath + ":0")
+        # module state must not keep the caller's own object: what it remembers about an argument (a position, a result)
+        # stays true only as long as the caller does not touch that object again
+        for qn, fi in m.functions.items():
+            if isinstance(fi.node, ast.Lambda):
+                continue
+            alias = fx.param_aliases(fi, [p_ for p_ in fi.params if p_ not in ("self", "cls")])
+            declared = set()
+            for n in walk_no_nested(fi.node):
+                if isinstance(n, ast.Global):
+                    declared |= set(n.names)
+            shadow = {n.id for n in walk_no_nested(fi.node) if isinstance(n, ast.Name) and isinstance(n.ctx, ast.Store)} | set(fi.params)
+
+            def kept(e):
+                if isinstance(e, ast.Name):
+                    return {alias[e.id]} if e.id in alias else set()
+                if isinstance(e, (ast.Tuple, ast.List, ast.Set)):
+                    return set().union(*[kept(x) for x in e.elts]) if e.elts else set()
+                if isinstance(e, ast.Dict):
+                    return set().union(*[kept(x) for x in e.values if x is not None]) if e.values else set()
+                if isinstance(e, ast.IfExp):
+                    return kept(e.body) | kept(e.orelse)
+                return set()
+            nstore = [0]
+            for n in sorted((x for x in walk_no_nested(fi.node) if hasattr(x, "lineno")), key=lambda x: (x.lineno, x.col_offset)):
+                g, val = None, None
+                if isinstance(n, ast.Assign):
+                    for tg in n.targets:
+                        if isinstance(tg, ast.Name) and tg.id in declared:
+                            g, val = tg.id, n.value
+                        elif isinstance(tg, ast.Subscript) and isinstance(tg.value, ast.Name) and tg.value.id in (mutable_globals | declared_global) \
+                                and (tg.value.id not in shadow or tg.value.id in declared):
+                            g, val = tg.value.id, n.value
+                elif isinstance(n, ast.Call) and isinstance(n.func, ast.Attribute) and n.func.attr in ("append", "add", "insert", "extend", "setdefault", "update") \
+                        and isinstance(n.func.value, ast.Name) and n.func.value.id in (mutable_globals | declared_global) \
+                        and (n.func.value.id not in shadow or n.func.value.id in declared):
+                    g, val = n.func.value.id, ast.Tuple(elts=list(n.args), ctx=ast.Load())
+                if g is None:
+                    continue
+                params = kept(val)
+                if (m.name, g, qn.split(".<locals>")[0]) in RETAINED_BY_DESIGN:
+                    params = set()
+                if report:
+                    nstore[0] += 1
+                    ctx.check(not params, R, "retained[%s.%s<-%s#%d]" % (m.name, g, qn, nstore[0]), fi.where(n), "%s: %s" % (qn, short(ast.unparse(n), 80)),
+                              "module-level state %s.%s keeps the caller's own object (parameter %s of %s): when the caller changes that object later, what the module "
+                              "remembers about it is no longer true and later calls answer differently; keep a value derived from it (a row, float(x), a copy)" % (
+                                  m.name, g, sorted(params), qn))
+                elif params:
+                    ctx.held(R, "fixture:retained %s" % g, m.relpath + ":0")
         # mutable default arguments
         for qn, fi in m.functions.items():
             if isinstance(fi.node, ast.Lambda):
@@ -608,6 +660,62 @@ def rule_stored_once(ctx, repo):
 
 
 # ------------------------------------------------------------------------------ R-C15-6
+def _acc_split(st):
+    """The remembered state as (row, frequency or None); (None, None) when it is neither a row nor a (row, frequency) pair."""
+    from ..engine.orddom import OrdVal
+    if isinstance(st, tuple) and len(st) == 2 and isinstance(st[1], OrdVal) and Lin.of(st[0]) is not None:
+        return Lin.of(st[0]), st[1]
+    if not isinstance(st, (tuple, str, bool)) and st is not None and Lin.of(st) is not None:
+        return Lin.of(st), None
+    return None, None
+
+
+def _acc_shape(states):
+    for st in states:
+        if st is None:
+            continue
+        row, val = _acc_split(st)
+        if row is not None:
+            return "pair" if val is not None else "row"
+    return None
+
+
+def _acc_warm(it, T, shape):
+    """Any state the lookup can have left behind: a row 0..127, with a frequency that lies in that row when it keeps one."""
+    from ..engine.orddom import OrdVal, TabVal, assume
+    lastn = Lin.of(Sym("lastn", 0, 127))
+    if shape == "row":
+        return lastn
+    lastval = OrdVal("lastval")
+    assume(it, TabVal(T, lastn - 1), ast.Lt, lastval)
+    assume(it, lastval, ast.LtE, TabVal(T, lastn))
+    return (lastn, lastval)
+
+
+def _acc_loop_states(repo, mod, inner, T, FFT):
+    """States one iteration of the search writes from the cold state (the cold run before the loop may write none)."""
+    from ..engine.orddom import OrdVal, consistent
+    out = []
+
+    def go(it):
+        it.global_cache[(FFT, "_log_cache")] = T
+        it.global_cache[(FFT, "_last_asked")] = None
+        b, e = Sym("begin", 0, 127), Sym("end", 1, 128)
+        it._refine(Lin.of(e) - Lin.of(b), lo=1)
+        try:
+            it.call_function(inner, [OrdVal("f"), Lin.of(b), Lin.of(e)], {})
+        except RaiseEx:
+            pass
+        return it.global_cache[(FFT, "_last_asked")]
+    try:
+        for p in explore(lambda ch: Interp(repo, ch, max_iter=8), go):
+            if consistent(p.interp):
+                out.append(p.value)
+    except CannotDecide:
+        pass
+    return out
+
+
 def rule_accelerator(ctx, repo):
     """fft._find_log_index keeps the position of the last lookup.  The table and the frequencies are only ever compared,
     so the function is evaluated in the order domain (engine/orddom.py): the table is a strictly increasing sequence of
@@ -670,20 +778,24 @@ def rule_accelerator(ctx, repo):
             return None
         if st is None:
             return None
-        if not (isinstance(st, tuple) and len(st) == 2 and isinstance(st[1], OrdVal)):
+        row, val = _acc_split(st)
+        if row is None:
             return "the remembered state becomes %r" % (st,)
-        rlo, rhi = it.lin_interval(it.resolve(Lin.of(st[0])))
+        rlo, rhi = it.lin_interval(it.resolve(row))
         # the table is strictly increasing: T[row - 1] < T[127] on this path means row - 1 < 127
-        if rhi > 127 and rhi <= 128 and entails(it, TabVal(T, Lin.of(st[0]) - 1), ast.Lt, TabVal(T, 127)) is True:
+        if rhi > 127 and rhi <= 128 and entails(it, TabVal(T, row - 1), ast.Lt, TabVal(T, 127)) is True:
             rhi = 127
         if rlo < 0 or rhi > 127:
             return ("the remembered row may be %s..%s, outside the rows 0..127 a lookup can answer: the next lookup reads the table at row + 1 "
                     "(IndexError beyond row 127) -- the range check comes after the shortcut" % (rlo, rhi))
-        w = in_row(it, st[0], st[1])
-        return None if w is None else "the remembered pair (%s, %s) does not satisfy 'the frequency lies in that row': %s" % (it.resolve(Lin.of(st[0])), st[1], w)
+        if val is None:
+            return None  # only a row is remembered: any row 0..127 is a true statement about the table
+        w = in_row(it, row, val)
+        return None if w is None else "the remembered pair (%s, %s) does not satisfy 'the frequency lies in that row': %s" % (it.resolve(row), val, w)
 
     T = MonoTable("T", 129)
     results = {}
+    shape = ["pair"]  # what the function remembers: (row, frequency) or the row alone -- read off what the cold call leaves behind
     for label in ("cold", "warm"):
         def go(it, label=label):
             f = OrdVal("f")
@@ -691,10 +803,7 @@ def rule_accelerator(ctx, repo):
             if label == "cold":
                 old = None
             else:
-                lastn, lastval = Sym("lastn", 0, 127), OrdVal("lastval")
-                old = (Lin.of(lastn), lastval)
-                assume(it, TabVal(T, Lin.of(lastn) - 1), ast.Lt, lastval)
-                assume(it, lastval, ast.LtE, TabVal(T, Lin.of(lastn)))
+                old = _acc_warm(it, T, shape[0])
             it.global_cache[(FFT, "_last_asked")] = old
             try:
                 r = ("return", it.call_function(pre, [f], {}))
@@ -746,16 +855,15 @@ def rule_accelerator(ctx, repo):
         if ok and label == "warm" and n_fast < 2:
             ok, why = False, "the remembered position is never used (%d shortcut answers)" % n_fast
         results[label] = (n_fast, n_slow)
+        if label == "cold":
+            shape[0] = _acc_shape([p.value[3] for p in paths if consistent(p.interp)] + _acc_loop_states(repo, mod, inner, T, FFT)) or shape[0]
         ctx.check(ok, R, "_find_log_index.before-loop[%s]" % label, fi.where(), "fft._find_log_index, %s state" % label, why,
                   paths=len(paths), shortcut_answers=n_fast, searches=n_slow)
 
     def go2(it):
         f = OrdVal("f")
         it.global_cache[(FFT, "_log_cache")] = T
-        lastn, lastval = Sym("lastn", 0, 127), OrdVal("lastval")
-        old = (Lin.of(lastn), lastval)
-        assume(it, TabVal(T, Lin.of(lastn) - 1), ast.Lt, lastval)
-        assume(it, lastval, ast.LtE, TabVal(T, Lin.of(lastn)))
+        old = _acc_warm(it, T, shape[0])
         it.global_cache[(FFT, "_last_asked")] = old
         b, e = Sym("begin", 0, 127), Sym("end", 1, 128)
         it._refine(Lin.of(e) - Lin.of(b), lo=1)
@@ -837,6 +945,7 @@ def _accelerator_whole(ctx, repo, mod, fi, R):
             return orig(name, args, kwargs, node)
         it.call_builtin = cb
         return it
+    shape = ["pair"]
     for label in ("cold", "warm"):
         def go(it, label=label):
             f = OrdVal("f")
@@ -844,10 +953,7 @@ def _accelerator_whole(ctx, repo, mod, fi, R):
             if label == "cold":
                 old = None
             else:
-                lastn, lastval = Sym("lastn", 0, 127), OrdVal("lastval")
-                old = (Lin.of(lastn), lastval)
-                assume(it, TabVal(T, Lin.of(lastn) - 1), ast.Lt, lastval)
-                assume(it, lastval, ast.LtE, TabVal(T, Lin.of(lastn)))
+                old = _acc_warm(it, T, shape[0])
             it.global_cache[(FFT, "_last_asked")] = old
             try:
                 r = ("return", it.call_function(fi, [f], {}))
@@ -882,16 +988,19 @@ def _accelerator_whole(ctx, repo, mod, fi, R):
                     ok, why = False, "answers %s although f need not lie in that row (%s): a cold lookup would answer differently" % (it.resolve(li), w)
                     break
             if st is not old and st is not None:
-                if not (isinstance(st, tuple) and len(st) == 2 and isinstance(st[1], OrdVal)):
+                row, sval = _acc_split(st)
+                if row is None:
                     ok, why = False, "the remembered state becomes %r" % (st,)
                     break
-                rlo, rhi = it.lin_interval(it.resolve(Lin.of(st[0])))
-                if rhi > 127 and rhi <= 128 and entails(it, TabVal(T, Lin.of(st[0]) - 1), ast.Lt, TabVal(T, 127)) is True:
+                rlo, rhi = it.lin_interval(it.resolve(row))
+                if rhi > 127 and rhi <= 128 and entails(it, TabVal(T, row - 1), ast.Lt, TabVal(T, 127)) is True:
                     rhi = 127
-                w = in_row(it, st[0], st[1])
+                w = in_row(it, row, sval) if sval is not None else None
                 if rlo < 0 or rhi > 127 or w:
-                    ok, why = False, "the remembered pair (%s, %s) is not 'a row 0..127 and a frequency that lies in it': %s" % (it.resolve(Lin.of(st[0])), st[1], w or "row %s..%s" % (rlo, rhi))
+                    ok, why = False, "the remembered state (%s, %s) is not 'a row 0..127 (and a frequency that lies in it)': %s" % (it.resolve(row), sval, w or "row %s..%s" % (rlo, rhi))
                     break
+        if label == "cold":
+            shape[0] = _acc_shape([p.value[3] for p in paths if consistent(p.interp)]) or shape[0]
         ctx.check(ok, R, "_find_log_index.whole[%s]" % label, fi.where(), "fft._find_log_index, %s state, evaluated as a whole" % label, why, paths=len(paths), answers=n_ans)
     # (keeps the instance count of the sliced mode: three obligations)
     ctx.held(R, "_find_log_index.search-by-bisect", fi.where(), note="the search itself is bisect's")
